@@ -205,6 +205,37 @@ func runC03(r *Run) {
 				" — e.g. RoutePatternMatch(\"/foo/\",\"/foo\") is false while an app with Get(\"/foo\") serves /foo/")
 	})
 
+	r.rule("R1b", "the path-side transformations are applied in the same order by RoutePatternMatch and request dispatch (E10)", func() {
+		_, _, rpm, cdp := normForms(r)
+		fam := func(k string) string {
+			if i := strings.IndexByte(k, '@'); i >= 0 {
+				return k[:i]
+			}
+			return k
+		}
+		order := func(m map[string]ssa.Instruction) map[[2]string]bool {
+			out := map[[2]string]bool{}
+			for ka, a := range m {
+				for kb, b := range m {
+					if ka != kb && precedes(a, b) {
+						out[[2]string{fam(ka), fam(kb)}] = true
+					}
+				}
+			}
+			return out
+		}
+		oc, orp := order(cdp["path"]), order(rpm["path"])
+		n := 0
+		for pair := range oc {
+			if _, both := orp[[2]string{pair[1], pair[0]}]; both || orp[pair] {
+				n++
+				r.check(orp[pair], "RoutePatternMatch:path-order:"+pair[0]+"<"+pair[1], r.fpos(r.Fn("", "RoutePatternMatch")), pair[0]+" precedes "+pair[1]+" on both sides",
+					"request dispatch applies "+pair[0]+" before "+pair[1]+" to the path, RoutePatternMatch applies them the other way round: e.g. with UnescapePath and case folding, %41 is folded before it is decoded and /%41pi no longer matches /api")
+			}
+		}
+		r.atLeast("ordered transformation pairs", n, 2)
+	})
+
 	r.rule("R2", "delimiter tables agree (E8)", func() {
 		sets, pos := byteSetVars(r, "", []string{"routeDelimiter", "greedyParameters", "parameterStartChars", "parameterDelimiterChars", "parameterEndChars"})
 		sub := func(a, b string) bool {
